@@ -5,7 +5,7 @@ LEVEL = "model_checking"
 MANIFEST = {
     "engine": "tlc Wire value enumeration + vhfmt c35 + tlc WireCheck (batch grammar validation)",
     "technique": "TLC enumerates abstract values of ten smart-protocol message types; for each, go-git's Encode/Decode round trip is compared by plain equality, go-git's bytes are tokenised into pkt-line tokens and TLC evaluates the TLA+ Grammar predicate (capability placement, ordering, peeled-after-tag, shallow placement, flush/LF, parsed content = value); git reads go-git's advertisements (git ls-remote --symref) and go-git decodes git's own upload-pack / receive-pack advertisements",
-    "text": "Exhaustive over the bounded value sets of Wire.tla: reference advertisements (every subset of 5 refs incl. HEAD and two annotated tags, v0/v1, capability sets, 0-2 shallows), upload requests (want sets, capability sets, shallows, 5 depth forms, filter), haves, ACK/NAK responses (single, multi_ack, final), shallow updates, update requests (1-3 commands, capability sets, shallow), push options, report-status, v2 command requests and ls-refs output.",
+    "text": "Exhaustive over the bounded value sets of Wire.tla: reference advertisements (every subset of 6 refs incl. HEAD and three annotated tags, one of whose names (refs/tags/a.0) extends another annotated tag's name (refs/tags/a) with a byte that sorts before '^', v0/v1, capability sets, 0-2 shallows), upload requests (want sets, capability sets, shallows, 5 depth forms, filter), haves, ACK/NAK responses (single, multi_ack, final), shallow updates, update requests (1-3 commands, capability sets, shallow), push options, report-status, v2 command requests and ls-refs output.",
     "note": "Object ids are symbols rendered as fixed hex strings (sha1 only: sha256 advertisements are not enumerated); git is a peer for advertisements (ls-remote on go-git's bytes; go-git on git's bytes for 4 repository shapes x 2 services x v0/v1) and for upload requests (git upload-pack --stateless-rpc parses a sample of go-git's requests); update requests / report-status are not exchanged with git receive-pack; packfile payloads, side-band framing (C34) and negotiation (C36/C37) are out of scope.",
 }
 CFG = """CONSTANTS Emit = TRUE  Big = %s
